@@ -132,10 +132,13 @@ for _d in range(30):
             tiers = Q if _d in (0, 1, 2, 29) else T
         if tiers:
             to = 1200 if 'quick' in tiers else 3600
-            _c10.append(H('c10_ring_%s_d%d' % (_RN[reg], _d), 'k_c10_ring(%d, %d);' % (_d, reg), tiers=tiers,
-                          timeout=to, mem_gb=4, unwind=max(4, _d + 1),
-                          inputs=[('r', 'u64')], replay='c10_ring', replay_const={'depth': _d}, covers=['region non empty'],
-                          domain='depth %d, every RING index of the %s region (and its successor)' % (_d, _RN[reg])))
+            # equatorial region at depth 29: 10+ min in one piece, cut in three
+            for part in ((0, 1, 2) if (_d == 29 and reg == 1) else (255,)):
+                _c10.append(H('c10_ring_%s_d%d%s' % (_RN[reg], _d, '' if part == 255 else '_p%d' % part),
+                              ('k_c10_ring(%d, %d);' % (_d, reg)) if part == 255 else ('k_c10_ring_part(%d, %d, %d);' % (_d, reg, part)), tiers=tiers,
+                              timeout=to, mem_gb=4, unwind=max(4, _d + 1),
+                              inputs=[('r', 'u64')], replay='c10_ring', replay_const={'depth': _d}, covers=['region non empty'],
+                              domain='depth %d, every RING index of the %s region (and its successor)%s' % (_d, _RN[reg], '' if part == 255 else ', third %d of the index range' % part)))
             _c10.append(H('c10_nested_%s_d%d' % (_RN[reg], _d), 'k_c10_nested(%d, %d);' % (_d, reg), tiers=tiers,
                           timeout=to, mem_gb=4, unwind=max(4, _d + 1),
                           inputs=[('h', 'u64')], replay='c10_nested', replay_const={'depth': _d}, covers=['region non empty'],
